@@ -61,20 +61,29 @@ def eval_solid(case):
         nn = math.sqrt(sum(x * x for x in f["n"]))
         off = float(pl.s * f["off"] + sum(pl.rot(f["n"])[i] * pl.t[i] for i in range(3)))
         planes.append((n / nn, off / nn))                      # unit normal u, offset d: u.x = d on the facet
-    for cls in ("ConvexPolyhedron", "Polyhedron"):
+    for cls, how in (("ConvexPolyhedron", []), ("Polyhedron", []), ("ConvexPolyhedron", ["reached_by_history"])):
         def bad(obs, msg, extra=()):
-            out.append(({"cls": cls, "obs": obs, "tags": tags + list(extra), "msg": msg}, {"case": case, "cls": cls, "obs": obs}))
+            out.append(({"cls": cls, "obs": obs, "tags": tags + how + list(extra), "msg": msg + (" (shape reached through queries and setters)" if how else "")},
+                        {"case": case, "cls": cls, "obs": obs}))
         try:
-            P = coxeter.shapes.ConvexPolyhedron(verts.copy())
-            if cls == "Polyhedron":
-                P = coxeter.shapes.Polyhedron(verts.copy(), [np.array(f) for f in P.faces], faces_are_convex=True)
+            if how:
+                # the same polyhedron built 700 times larger elsewhere, queried, and brought here by the volume and centroid
+                # setters (ShapeMachine: ReachByHistory): the balls are those of the current geometry
+                from .history import reach
+                P = reach("ConvexPolyhedron", verts, variant=1)
+                if P is None:
+                    continue
+            else:
+                P = coxeter.shapes.ConvexPolyhedron(verts.copy())
+                if cls == "Polyhedron":
+                    P = coxeter.shapes.Polyhedron(verts.copy(), [np.array(f) for f in P.faces], faces_are_convex=True)
         except Exception as e:
             bad("construct", f"rejected: {e}")
             continue
         # minimal bounding sphere (definition check); the solver is randomised and retries: degenerate vertex sets are asked
         # again under many states of the global generators
         try:
-            for rep in range(case.get("repeat", 0)):
+            for rep in range(0 if how else case.get("repeat", 0)):
                 random.seed(1000 * case.get("seed", 0) + rep)
                 np.random.seed(1000 * case.get("seed", 0) + rep)
                 before = len(out)
